@@ -36,6 +36,8 @@ def cases(seed, tier):
         kind = ["surface", "surface", "surface", "volume", "polyline"][i % 5]
         out.append({"gen": kind, "seed": rng.randrange(2 ** 31), "nops": [1, 1, 2, 2, 3][(i // 5) % 5], "prequery": (i // 2) % 2 == 0,
                     "max_size": 3 if tier == "quick" else 5, "max_faces": 900 if tier == "quick" else 2500})
+    for i in range(30 if tier == "quick" else 600):
+        out.append({"gen": "ears", "seed": rng.randrange(2 ** 31), "prequery": i % 2 == 0, "max_size": 3 if tier == "quick" else 5})
     return out
 
 
@@ -478,9 +480,89 @@ def _polyline_case(desc, ctx, rng):
         m = tgt
 
 
+def _ears_case(desc, ctx, rng):
+    """split_double_boundary_edges_triangles: every face with a vertex that has only two incident edges (an 'ear') is fanned from its centre."""
+    from mouette.mesh.subdivision import split_double_boundary_edges_triangles
+    z = surfaces.make(rng.randrange(2 ** 31), max_size=desc["max_size"], tri_only=True)
+    V0, F0 = [list(map(float, p)) for p in np.asarray(z["V"], float)], [list(f) for f in z["F"]]
+    ref = RefSurface(len(V0), F0)
+    # glue ear triangles onto some border edges (the new vertex has exactly two incident edges)
+    border = sorted(ref.border_edges)
+    rng.shuffle(border)
+    used = set()
+    n_ears = 0
+    for (a, b) in border[:rng.randint(0, 4)]:
+        if a in used or b in used:
+            continue
+        used.update((a, b))
+        f = ref.direct_face(a, b)
+        if f is None:
+            a, b = b, a
+            f = ref.direct_face(a, b)
+        c = [v for v in F0[f] if v not in (a, b)][0]
+        pa, pb, pc = (np.asarray(V0[v], float) for v in (a, b, c))
+        apex = (pa + pb) / 2 + 0.7 * ((pa + pb) / 2 - pc) + rng.uniform(-0.1, 0.1) * (pb - pa)
+        V0.append([float(x) for x in apex])
+        F0.append([b, a, len(V0) - 1])
+        n_ears += 1
+    a0 = topo.analyse(len(V0), F0)
+    if not (a0["manifold"] and a0["oriented"]):
+        ctx.cls("ears:skipped_non_manifold_draw")
+        return
+    deg = {}
+    for e in topo.edges_of(F0):
+        for v in e:
+            deg[v] = deg.get(v, 0) + 1
+    ear_faces = [i for i, f in enumerate(F0) if any(deg[v] == 2 for v in f)]
+    ctx.cls("ears:%s" % ("none" if not ear_faces else ("some" if len(ear_faces) < 3 else "many")))
+    if ear_faces:
+        ctx.nontrivial(stable_hash([len(V0), F0, "ears"]))
+    irows = ["list", "tuple", "nprow", "npint"][desc["seed"] % 4]
+    ok, m = ctx.call("build", build.surface, V0, F0, "list", irows, monitor="result")
+    if desc["prequery"]:
+        P0 = surfconn.probes(RefSurface(len(V0), F0), random.Random(1))
+        S0 = surfconn.script(P0)
+        surfconn.run_script(ctx, m, S0, list(range(len(S0))), monitor="prequery")
+    snap0 = _snap_surface(m)
+    ok, r = ctx.call("split_double_boundary_edges_triangles", split_double_boundary_edges_triangles, m, monitor="result")
+    ctx.obs("result", "valid")
+    if r is None:
+        r = m
+    Vr, Fr, Er = build.vertices_array(r), build.faces_list(r), build.edges_list(r)
+    ar = topo.analyse(len(Vr), Fr)
+    if not (ar["valid_indices"] and ar["manifold"] and ar["oriented"] and ar["unused_vertices"] == 0 and ar["repeated_faces"] == 0):
+        ctx.violation("result", "split_ears", "invalid_mesh", "result is not a valid oriented manifold mesh")
+        return
+    same_topo = (ar["chi"] == a0["chi"] and len(ar["border_loops"]) == len(a0["border_loops"]) and ar["n_components"] == a0["n_components"])
+    ctx.check(same_topo, "result", "topology", "topology_changed", "Euler characteristic / border loops / components differ from the input", ops="split_ears")
+    A0, Ar = _area(np.asarray(V0, float), F0), _area(Vr, Fr)
+    ctx.check(abs(A0 - Ar) <= 1e-10 * max(A0, 1e-300), "result", "area", "area_changed", "total area differs from the input", before=A0, after=Ar, ops="split_ears")
+    ctx.check(sorted(Er) == sorted(topo.edges_of(Fr)), "result", "edges", "edge_list_not_face_sides", "result edge list is not exactly the sides of its faces")
+    want = (len(V0) + len(ear_faces), len(topo.edges_of(F0)) + 3 * len(ear_faces), len(F0) + 2 * len(ear_faces))
+    ctx.check((len(Vr), len(Er), len(Fr)) == want, "counts", "split_ears", "wrong_element_counts",
+              "each face with a two-edge vertex must be fanned from its centre (+1 vertex, +3 edges, +2 faces per such face), the others left alone",
+              got=[len(Vr), len(Er), len(Fr)], want=list(want), ear_faces=len(ear_faces))
+    degr = {}
+    for e in topo.edges_of(Fr):
+        for v in e:
+            degr[v] = degr.get(v, 0) + 1
+    ctx.check(not any(degr[v] == 2 for f in Fr for v in f), "result", "split_ears", "a_vertex_with_two_edges_remains",
+              "after the operation a face still has a vertex with only two incident edges")
+    _match_new_vertices(ctx, "split_ears", {"V": np.asarray(V0, float), "E": [], "F": [F0[i] for i in ear_faces]}, Vr, float(np.ptp(np.asarray(V0, float))) + 1e-300)
+    refr = RefSurface(len(Vr), Fr)
+    Pr = surfconn.probes(refr, random.Random(2))
+    Sr = surfconn.script(Pr)
+    Tr = surfconn.run_script(ctx, r, Sr, list(range(len(Sr))), monitor="result_conn")
+    fc = [(int(r.face_corners.element(c)), int(r.face_corners.adj(c))) for c in range(len(r.face_corners))]
+    surfconn.verify(ctx, Tr, refr, Er, Pr, True, monitor="result_conn", face_corners=fc)
+    _input_object_surface(ctx, m, snap0, _snap_surface(r), "split_ears")
+
+
 def run_case(desc, ctx):
     rng = random.Random(desc["seed"])
-    if desc["gen"] == "surface":
+    if desc["gen"] == "ears":
+        _ears_case(desc, ctx, rng)
+    elif desc["gen"] == "surface":
         _surface_case(desc, ctx, rng)
     elif desc["gen"] == "volume":
         _volume_case(desc, ctx, rng)
